@@ -330,9 +330,14 @@ impl MemberKind {
             _ => {}
         }
 
+        // NOTE: Only canonical decimal numbers denote a width or an array size;
+        // `uint0256` or `T[+1]` are not spellings of `uint256` or `T[1]`.
+        let canonical =
+            |n: &str| n == "0" || (!n.starts_with('0') && n.bytes().all(|b| b.is_ascii_digit()));
+
         if let Some((prefix, n)) = value.find(char::is_numeric).and_then(|i| {
             let (prefix, n) = value.split_at(i);
-            Some((prefix, n.parse::<u32>().ok()?))
+            Some((prefix, n.parse::<u32>().ok().filter(|_| canonical(n))?))
         }) {
             match (prefix, n) {
                 ("bytes", n) if (1..=32).contains(&n) => return MemberKind::Bytes(Some(n as _)),
@@ -347,7 +352,7 @@ impl MemberKind {
         }
         if let Some((prefix, n)) = value.strip_suffix(']').and_then(|value| {
             let (prefix, n) = value.rsplit_once('[')?;
-            Some((prefix, n.parse::<usize>().ok()?))
+            Some((prefix, n.parse::<usize>().ok().filter(|_| canonical(n))?))
         }) {
             return MemberKind::Array(Box::new(MemberKind::from_str(prefix)), Some(n));
         }
